@@ -31,6 +31,16 @@ def eMapping (m : Mapping) : Json :=
 def ePath (r : RPos) : Json :=
   Json.arr (r.path.map (fun e => Json.arr #[jn e.index, jn e.pos])).toArray
 
+partial def reToLean : RE → String
+  | .eps => "RE.eps"
+  | .sym t => s!"(RE.sym {t})"
+  | .alt a b => s!"(RE.alt {reToLean a} {reToLean b})"
+  | .seq a b => s!"(RE.seq {reToLean a} {reToLean b})"
+  | .star a => s!"(RE.star {reToLean a})"
+
+def certToLean (V : Cert) : String :=
+  "[" ++ ", ".intercalate (V.map (fun (q, rs) => s!"({q}, [" ++ ", ".intercalate (rs.map reToLean) ++ "])")) ++ "]"
+
 def handle (st : St) (j : Json) : D (St × Json) := do
   let op ← str (← field j "op")
   match op with
@@ -241,6 +251,53 @@ def handle (st : St) (j : Json) : D (St × Json) := do
     let f ← nat (← field j "from")
     let t ← nat (← field j "to")
     return (st, ok (Json.bool (rangeHasMark d.kids f t (← mark (← field j "mark")))))
+  -- ---------------- C06: content expressions
+  | "c06" =>
+    -- table: [[name, [groups], isInline, generatable]], expr: string, dfa (optional): [[validEnd, [[ty,next]]]]
+    let tableJ ← arr (← field j "table")
+    let table ← tableJ.toList.mapM (fun e => do
+      let a ← arr e
+      return ({ name := ← str a[0]!, groups := ← listOf str a[1]!, isInline := ← bool a[2]! } : NameInfo))
+    let gen ← tableJ.toList.mapM (fun e => do
+      let a ← arr e
+      bool a[3]!)
+    let expr ← str (← field j "expr")
+    let sigma := List.range table.length
+    match specParse table expr with
+    | .error e =>
+      return (st, ok (Json.mkObj [("parse", Json.str (match e with
+        | .syntax => "syntax"
+        | .unknownName => "unknownName"
+        | .mixed => "mixed"))]))
+    | .ok r =>
+      let dead := hasDeadEnd sigma (fun a => gen.getD a false) r
+      let base := [("parse", Json.str "ok"), ("dead", Json.bool dead), ("re", Json.str (reToLean r))]
+      match fieldD j "dfa" Json.null with
+      | .null => return (st, ok (Json.mkObj base))
+      | dj =>
+        let d := (← listOf dfaState dj).toArray
+        match findCert d sigma r with
+        | some V =>
+          let okc := equivCheck d sigma r V
+          let extra := if okc then [("cert", Json.str (certToLean V))] else
+            [("witness", match distinguish d sigma r 7 with
+              | some (w, a, b) => Json.arr #[eNats w, Json.bool a, Json.bool b]
+              | none => Json.null)]
+          return (st, ok (Json.mkObj (base ++ [("equiv", Json.bool okc)] ++ extra)))
+        | none =>
+          return (st, ok (Json.mkObj (base ++ [("equiv", Json.bool false), ("witness", match distinguish d sigma r 7 with
+              | some (w, a, b) => Json.arr #[eNats w, Json.bool a, Json.bool b]
+              | none => Json.null)])))
+  | "rematch" =>
+    let tableJ ← arr (← field j "table")
+    let table ← tableJ.toList.mapM (fun e => do
+      let a ← arr e
+      return ({ name := ← str a[0]!, groups := ← listOf str a[1]!, isInline := ← bool a[2]! } : NameInfo))
+    let expr ← str (← field j "expr")
+    let ws ← listOf (listOf nat) (← field j "words")
+    match specParse table expr with
+    | .error _ => return (st, eErr .valueError)
+    | .ok r => return (st, ok (Json.arr (ws.map (fun w => Json.bool (RE.rmatch r w))).toArray))
   | "toks" =>
     let d ← node (← field j "doc")
     return (st, ok (jn d.toks.length))
